@@ -151,6 +151,43 @@ func solve(o *Obligation, dir string, timeout int, keep bool) *SolveResult {
 	}
 	launch(solvers[0])
 	pending := 1
+	// lean variant: drop quantified nonlinear hypotheses that stem from other contract clauses than the goal's
+	if o.Goal != nil {
+		var lean []*Term
+		dropped := 0
+		for _, h := range o.Hyps {
+			if tag, ok := o.HypTags[h]; ok && tag != o.Tag && hasQuant(h) && hasNonlinear([]*Term{h}) {
+				dropped++
+				continue
+			}
+			lean = append(lean, h)
+		}
+		if dropped > 0 {
+			termMu.Lock()
+			cache := map[*Term]*Term{}
+			ah := make([]*Term, len(lean))
+			for i, h := range lean {
+				ah[i] = abstractNL(h, cache)
+			}
+			ag := abstractNL(o.Goal, cache)
+			termMu.Unlock()
+			aq, _ := BuildQuery(preludeFor(usedUFs(append(append([]*Term(nil), ah...), ag))), ah, ag, false)
+			file := base + ".lean.smt2"
+			os.WriteFile(file, []byte(aq), 0o644)
+			sp := solverSpec{name: "z3-new-5.1.0+lean", cmd: solvers[0].cmd}
+			go func() {
+				first, txt, d := runSolver(ctx, sp, file, timeout)
+				if first != "unsat" {
+					first = "unknown"
+				}
+				ch <- ans{first, txt, d, sp}
+			}()
+			pending++
+			if !keep {
+				defer os.Remove(file)
+			}
+		}
+	}
 	// sound abstraction: nonlinear products as an uninterpreted function (unsat there => unsat in the reals)
 	if o.Goal != nil && hasNonlinear(all) {
 		termMu.Lock()
@@ -173,7 +210,9 @@ func solve(o *Obligation, dir string, timeout int, keep bool) *SolveResult {
 			ch <- ans{first, txt, d, sp}
 		}()
 		pending++
-		defer os.Remove(file)
+		if !keep {
+			defer os.Remove(file)
+		}
 	}
 	launchedAll := false
 	timer := time.NewTimer(1500 * time.Millisecond)
@@ -275,6 +314,9 @@ func solveAll(obls []*Obligation, dir string, timeout int, workers int, keep boo
 		}()
 	}
 	for _, o := range obls {
+		if o.Result != nil {
+			continue // already decided during symbolic execution (side obligations)
+		}
 		ch <- o
 	}
 	close(ch)
@@ -376,7 +418,13 @@ func abstractNL(t *Term, cache map[*Term]*Term) *Term {
 		if t.K == TQuant {
 			nt := newTerm(TQuant, t.Op, SBool, args[0])
 			nt.Bound = t.Bound
-			nt.Pats = t.Pats
+			for _, ps := range t.Pats {
+				var np []*Term
+				for _, q := range ps {
+					np = append(np, abstractNL(q, cache))
+				}
+				nt.Pats = append(nt.Pats, np)
+			}
 			nt.hasBound = t.hasBound
 			r = nt
 		} else {
@@ -387,4 +435,50 @@ func abstractNL(t *Term, cache map[*Term]*Term) *Term {
 	}
 	cache[t] = r
 	return r
+}
+
+func hasQuant(t *Term) bool {
+	seen := map[*Term]bool{}
+	var rec func(t *Term) bool
+	rec = func(t *Term) bool {
+		if seen[t] {
+			return false
+		}
+		seen[t] = true
+		if t.K == TQuant {
+			return true
+		}
+		for _, a := range t.Args {
+			if rec(a) {
+				return true
+			}
+		}
+		return false
+	}
+	return rec(t)
+}
+
+// quickSolve: single solver, short timeout (side conditions of engine rules)
+func quickSolve(o *Obligation, dir string, timeout int) *SolveResult {
+	all := append(append([]*Term(nil), o.Hyps...), o.Goal)
+	termMu.Lock()
+	cache := map[*Term]*Term{}
+	ah := make([]*Term, len(o.Hyps))
+	for i, h := range o.Hyps {
+		ah[i] = abstractNL(h, cache)
+	}
+	ag := abstractNL(o.Goal, cache)
+	termMu.Unlock()
+	_ = all
+	q, nodes := BuildQuery(preludeFor(usedUFs(append(append([]*Term(nil), ah...), ag))), ah, ag, false)
+	file := filepath.Join(dir, "side.smt2")
+	os.WriteFile(file, []byte(q), 0o644)
+	start := time.Now()
+	first, txt, _ := runSolver(context.Background(), solvers[0], file, timeout)
+	res := &SolveResult{Status: "unknown", Nodes: nodes, Raw: firstLines(txt, 2), Ms: time.Since(start).Milliseconds()}
+	if first == "unsat" {
+		res.Status = "proved"
+		res.Solver = solvers[0].name + "+nlabs"
+	}
+	return res
 }
